@@ -82,7 +82,7 @@ def gen_case(r, k, same=None):
                 zs.append(z)
         for d, v in enumerate(vars_):
             m = r.random()
-            if m < 0.12 and v["hk"] is not None:
+            if m < 0.04 and v["hk"] is not None:
                 # engine force that cancels the restraint force exactly: measured total force is zero
                 # as long as the ABF force is zero (aims at the ft.norm2() > 0 guard of colvar.cpp)
                 es.append(-harm_force(v, colvar_value(v, zs[d])))
@@ -358,6 +358,21 @@ def zero_total_steps(c, impl_steps):
     return hits
 
 
+def value_zero_steps(c, impl_steps):
+    """steps (lagged convention) at which a variable had the value exactly 0 while Colvars applied a force to it"""
+    hits = []
+    if c["same"]:
+        return hits
+    for t, st in enumerate(c["steps"]):
+        if t >= len(impl_steps):
+            break
+        af = impl_steps[t].get("af", [])
+        for d, v in enumerate(c["vars"]):
+            if colvar_value(v, st["z"][d]) == 0.0 and d < len(af) and af[d] != 0.0:
+                hits.append((t, d))
+    return hits
+
+
 def oracle(c, impl_steps):
     """property oracle on the implementation's output alone; returns list of (signature, text)"""
     bad = []
@@ -391,10 +406,11 @@ def oracle(c, impl_steps):
         bad.append(("oracle:count", "stored counts %s differ from the number of attributed samples per bin %s" % (last["cnt"], cnt)))
     elif not all(close(a, b) for a, b in zip(sm, last["sum"])):
         zt = zero_total_steps(c, impl_steps)
-        sig = "sample:subtractAppliedForce-zero-total-force" if zt else "oracle:sum"
+        vz = value_zero_steps(c, impl_steps)
+        sig = "sample:subtractAppliedForce-zero-total-force" if zt else ("sample:force-dropped-at-value-zero" if vz else "oracle:sum")
         k = [i for i, (a, b) in enumerate(zip(sm, last["sum"])) if not close(a, b)][0]
         bad.append((sig, "stored gradient sums differ from minus the summed attributed samples: element %d is %s, expected %s%s"
-                    % (k, last["sum"][k], float(sm[k]), (" (measured total force exactly zero at (step,variable) %s)" % zt[:3]) if zt else "")))
+                    % (k, last["sum"][k], float(sm[k]), (" (measured total force exactly zero at (step,variable) %s)" % zt[:3]) if zt else ((" (value exactly 0 at (step,variable) %s)" % vz[:3]) if vz else ""))))
     return bad
 
 
@@ -410,12 +426,31 @@ def witness_zero_total():
                       {"z": [0.5], "e": [2.0], "boundary": False}]}
 
 
+def witness_value_zero():
+    """C04_abf_state_is_sample_sum_refuted_value_zero: lagged forces, value exactly 0 at step 0 while a restraint
+    applies +1 and the engine force is 1: the attributed sample for bin 1 is (1+1) - 0 = 2, the implementation records 1."""
+    v = {"periodic": False, "w": 1.0, "nx": 2, "lower": -1.0, "upper": 1.0, "sub": False, "hk": 1.0, "hc": 1.0}
+    return {"id": "W2", "vars": [v], "same": False, "full": 2, "min": 1, "apply": False, "update": True, "cap": False,
+            "maxf": [0.0], "szd": False, "hideJ": False, "abf_first": True,
+            "steps": [{"z": [0.0], "e": [1.0], "boundary": False}, {"z": [0.5], "e": [0.0], "boundary": False}]}
+
+
+def judge_value_zero(c, steps):
+    got = steps[-1]["sum"][1]
+    if steps[-1]["cnt"][1] == 1 and got != -2.0:
+        return ("lagged total forces, variable value exactly 0 at step 0, engine force 1, harmonic restraint applying +1 (reported as applied force %s): "
+                "the sample of step 0 is (1+1) - 0 = 2, so the stored sum of bin 1 must be -2; the implementation stores %s "
+                "(colvar::communicate_forces multiplies the force by integer_power(value, 0), which is 0 for value == 0.0: the atoms never receive it)"
+                % (steps[0]["af"][0], got))
+    return None
+
+
 def witness_zero_mean():
-    """C04_zero_mean_periodic_refuted: one periodic variable, 2 bins, minSamples 1, fullSamples 2; one sample of
+    """C04_zero_mean_periodic_refuted (W3): one periodic variable, 2 bins, minSamples 1, fullSamples 2; one sample of
     force 2 in bin 0 (count = minSamples: ramp 0).  Then the force in each bin is probed at repeated (boundary)
     steps, which add no sample."""
     v = {"periodic": True, "w": 1.0, "nx": 2, "P": 2.0, "c": 1.0, "lower": 0.0, "upper": 2.0, "sub": False, "hk": None, "hc": 0.0}
-    return {"id": "W2", "vars": [v], "same": True, "full": 2, "min": 1, "apply": True, "update": True, "cap": False,
+    return {"id": "W3", "vars": [v], "same": True, "full": 2, "min": 1, "apply": True, "update": True, "cap": False,
             "maxf": [0.0], "szd": False, "hideJ": False, "abf_first": True,
             "steps": [{"z": [0.5], "e": [0.0], "boundary": False}, {"z": [0.5], "e": [2.0], "boundary": False},
                       {"z": [0.5], "e": [0.0], "boundary": True}, {"z": [1.5], "e": [0.0], "boundary": True}]}
@@ -541,6 +576,7 @@ def check(run):
 
     # witnesses of the _refuted theorems, replayed on the implementation
     for wf, sig, judge in ((witness_zero_total, "sample:subtractAppliedForce-zero-total-force", judge_zero_total),
+                           (witness_value_zero, "sample:force-dropped-at-value-zero", judge_value_zero),
                            (witness_zero_mean, "force:periodic-zero-mean-during-ramp", judge_zero_mean)):
         c = wf()
         rc, res, err = run_batch(unit, [c], d, c["id"])
